@@ -53,6 +53,24 @@ SUM = {
  "C16c": "ValueRecord y_advance device delta applied in horizontal runs too",
  "C17c": "remove_deleted_glyphs for morx + GPOS fonts runs before morx: 0xFFFF records stay in the output",
  "C18c": "required feature scheduled at the GSUB stage of the same tag also for GPOS (`info.stage[0]`): GPOS required feature dropped",
+ "C01d": "Hangul <L,V,T?> branch: composed-syllable index computed before the is_combining checks (`v - V_BASE` underflows for U+1160 in checked builds)",
+ "C02d": "delete_glyphs_inplace backward-merge test reads `info[i-1]` instead of `info[j-1]` (smallest cluster lost in backward runs)",
+ "C03d": "ValueRecord x_advance device branch no longer reports `worked` (PairPos flags nothing when kerning comes only from a device delta)",
+ "C04d": "_set_glyph_flags two-sided variant: second min-cluster scan no longer carries the first minimum (wrong cluster left unflagged in descending buffers)",
+ "C05d": "clear() no longer truncates info/pos (guess_segment_properties / ensure_native_direction scan stale records)",
+ "C06d": "required feature's stage recorded only after the early `continue` (a required feature with a known, unlisted tag runs in stage 0)",
+ "C07d": "MarkToLigature component clamp `min(mark_comp-1, n)` instead of `n-1` (mark left unattached)",
+ "C08d": "Thai/Lao SARA AM mark shift loop runs forwards again (overlap: mark duplicated / lost with two or more marks)",
+ "C09d": "recompose: starter update keyed on `!is_unicode_mark(prev)` instead of combining class 0 (composition across a ccc-0 mark)",
+ "C10d": "digest add_range saturation test `> mask_bits()` instead of `>= mask_bits() - 1`",
+ "C11d": "Arabic shaper no longer chosen for Arabic script when the font's GSUB has only a DFLT script record",
+ "C12d": "planner: downgrade to the dumber shaper keyed on `has_morx` instead of `apply_morx` (vertical Hangul on GSUB+morx fonts)",
+ "C13d": "zero_width_default_ignorables skips glyphs whose advance is already zero (stale offsets kept)",
+ "C14d": "apply_backward feature-mask test `&` became `|` (ranged features ignored by reverse-chaining lookups)",
+ "C15d": "set_cluster ORs the whole mask of the deleted glyph (feature bits leak into neighbours, level-dependent)",
+ "C16d": "rotate_chars tests the font for the ORIGINAL code point instead of the mirrored one (.notdef for unmirrorable pairs)",
+ "C17d": "morx drive(): state no longer reset to START_OF_TEXT when a switched-off range is skipped",
+ "C18d": "F_GLOBAL_SEARCH fallback lost its `!found` guard (vert of another language system wins in vertical text)",
 }
 rows = []
 for f in sorted(glob.glob("/verif/seeded/*/meta.json")):
